@@ -12,7 +12,7 @@ open HW.Proc
     a new incarnation only after the previous one has handled Stopped, nothing after it. -/
 theorem lifecycle_shape (max mw : Nat) (script : List Outcome) (batches : List (List Msg)) :
     lifecycleOK (runHistory max mw script batches).1.trace = true :=
-  lifecycle_ok max mw script batches
+  Shape.lifecycle_ok max mw script batches
 
 /-- when Spawn returns, Started has been handled (or the actor has already ended): the trace of a
     spawn that survives ends with the successful inbox start, which comes after the Started event. -/
